@@ -266,6 +266,11 @@ func (d *Decoder) readUntypedMap() (interface{}, error) {
 
 func (d *Decoder) readMap(dest reflect.Value) error {
 	tag, _ := d.readTag()
+	// class definitions may stand in front of any value
+	tag, err := d.skipClassDefs(tag)
+	if err != nil {
+		return err
+	}
 
 	switch tag {
 	case _nilTag:
